@@ -14,7 +14,19 @@ pub(crate) struct SpecialPrefixBackend<B: Backend> {
 }
 
 lazy_static! {
-    static ref RE: Regex = Regex::new("^item([0-9]+)").unwrap();
+    // the whole identifier must be `item<n>` with `n` in canonical decimal form, so that distinct
+    // spellings (`item1a`, `item01`) never share the symbol of `item1`
+    static ref RE: Regex = Regex::new("^item(0|[1-9][0-9]*)$").unwrap();
+}
+
+/// indices above this are interned as ordinary identifiers (no tuple is that wide, and the item table
+/// grows to the index)
+const MAX_ITEM_INDEX: usize = 1 << 16;
+
+fn item_index(string: &str) -> Option<usize> {
+    let m = RE.captures(string)?;
+    let idx: usize = m[1].parse().ok()?;
+    (idx <= MAX_ITEM_INDEX).then_some(idx)
 }
 
 #[derive(Derivative)]
@@ -53,8 +65,7 @@ impl<B: Backend> Backend for SpecialPrefixBackend<B> {
     }
 
     fn intern(&mut self, string: &str) -> Self::Symbol {
-        if let Some(m) = RE.captures(string) {
-            let idx: usize = m[1].parse().unwrap();
+        if let Some(idx) = item_index(string) {
             if self.items.len() <= idx {
                 self.items
                     .extend(iter::repeat(None).take(idx - self.items.len()));
@@ -69,12 +80,13 @@ impl<B: Backend> Backend for SpecialPrefixBackend<B> {
     }
 
     fn intern_static(&mut self, string: &'static str) -> Self::Symbol {
-        if let Some(m) = RE.captures(string) {
-            let idx: usize = m[1].parse().unwrap();
-            if self.items.len() <= idx || self.items[idx].is_none() {
+        if let Some(idx) = item_index(string) {
+            if self.items.len() <= idx {
                 self.items
-                    .extend(iter::repeat(None).take(idx - self.items.len() - 1));
+                    .extend(iter::repeat(None).take(idx - self.items.len()));
                 self.items.push(Some(Cow::Borrowed(string)));
+            } else if self.items[idx].is_none() {
+                self.items[idx] = Some(Cow::Borrowed(string));
             }
             SpecialPrefixSymbol::Item(idx)
         } else {
